@@ -32,6 +32,9 @@ pub enum Act {
     Next,
     /// a well-behaved round: block on the current tip, notar votes, final votes by the masks
     Honest { notar_mask: u16, final_mask: u16, late_block: bool },
+    /// a contested slot: block b and a rival b' on the tip, puppet notar votes for the rival,
+    /// puppet skip votes, and a received notarisation certificate for b, in a generated order
+    Contested { rival_mask: u16, skip_mask: u16, order: u8 },
     Standstill,
 }
 
@@ -51,7 +54,7 @@ impl Property for C05 {
         "C05"
     }
     fn cases(&self, tier: Tier) -> u32 {
-        tier.pick(2_000, 80_000)
+        tier.pick(4_000, 120_000)
     }
     fn rule(&self) -> String {
         "cases: 4..=8 validators (equal or small-integer stakes), one correct node, all others puppets with no stake \
@@ -90,6 +93,7 @@ impl Property for C05 {
             4 => Just(Act::Next),
             8 => (dense.clone(), dense, prop::bool::weighted(0.2)).prop_map(|(notar_mask, final_mask, late_block)| Act::Honest { notar_mask, final_mask, late_block }),
             1 => Just(Act::Standstill),
+            5 => (any::<u16>(), any::<u16>(), 0u8..120).prop_map(|(rival_mask, skip_mask, order)| Act::Contested { rival_mask, skip_mask, order }),
         ];
         (stakes, any::<u16>(), any::<u64>(), prop::collection::vec(act, 1..70))
             .prop_map(|(stakes, own, seed, acts)| Case { stakes, own, seed, acts })
@@ -219,6 +223,69 @@ async fn run(case: &Case) -> Outcome {
                 if bail_on!(node.add_cert(vc).await, "add_cert").is_none() {
                     break 'acts;
                 }
+            }
+            Act::Contested { rival_mask, skip_mask, order } => {
+                let slot = cursor;
+                let (tb, tr) = (slot * 10 + 1, slot * 10 + 2);
+                let parent = if tip.0 < slot { tip } else { (0, 0) };
+                registry.entry((slot, tb)).or_insert(parent);
+                registry.entry((slot, tr)).or_insert(parent);
+                let pb = registry[&(slot, tb)];
+                let pr = registry[&(slot, tr)];
+                // the order-th permutation of the five steps
+                let mut steps: Vec<u8> = vec![0, 1, 2, 3, 4];
+                let mut k = *order as usize;
+                let mut perm = Vec::new();
+                for f in (1..=5usize).rev() {
+                    perm.push(steps.remove(k % f));
+                    k /= f;
+                }
+                for st in perm {
+                    match st {
+                        0 => {
+                            if bail_on!(node.block(bid(slot, tb), bid(pb.0, pb.1), true).await, "add_block").is_none() {
+                                break 'acts;
+                            }
+                        }
+                        1 => {
+                            // the rival reaches the node through repair (pool registration, block notice)
+                            if bail_on!(node.block(bid(slot, tr), bid(pr.0, pr.1), false).await, "add_block").is_none() {
+                                break 'acts;
+                            }
+                        }
+                        2 | 3 => {
+                            let (kind, mask, tag) = if st == 2 { (VKind::Notar, rival_mask, tr) } else { (VKind::Skip, skip_mask, 0) };
+                            for (j, v) in puppets.iter().enumerate() {
+                                // a puppet casts one initial vote in this template
+                                let votes_rival = rival_mask >> j & 1 == 1;
+                                if mask >> j & 1 == 0 || (st == 3 && votes_rival) {
+                                    continue;
+                                }
+                                let spec = VoteSpec { kind, slot, block: tag, signer: *v }.norm();
+                                if bail_on!(node.add_vote(valid_vote(spec, &ep)).await, "add_vote").is_none() {
+                                    break 'acts;
+                                }
+                            }
+                        }
+                        _ => {
+                            let primary: Vec<usize> = puppets.clone();
+                            let stake: u128 = primary.iter().map(|v| case.stakes[*v] as u128).sum();
+                            if stake * 5 >= total * 3 {
+                                let spec = CertSpec { kind: CKind::Notar, slot, block: tb, primary, fallback: vec![] };
+                                if let Ok(vc) = valid_cert(&spec, &ep)
+                                    && bail_on!(node.add_cert(vc).await, "add_cert").is_none()
+                                {
+                                    break 'acts;
+                                }
+                            }
+                        }
+                    }
+                    if !monitor(&mut node, &mut mon, &registry, &ep, own, &mut out, step).await {
+                        break 'acts;
+                    }
+                }
+                tip = (slot, tb);
+                cursor += 1;
             }
             Act::Honest { notar_mask, final_mask, late_block } => {
                 let slot = cursor;
